@@ -46,4 +46,4 @@ with cf.ThreadPoolExecutor(max_workers=jobs) as ex:
         own = out.get("checks", {}).get(out["property"], {})
         print(seed, "applies" if out["applies"] else "NOAPPLY", {k: v["exit"] for k, v in out.get("checks", {}).items()}, flush=True)
 json.dump(res, open(path, "w"), indent=1, sort_keys=True)
-subprocess.run("rm -rf /verif/build/expand_* /verif/build/alt_*", shell=True)
+# (each run removes its own scratch directory; nothing is removed wholesale - other runs may be in flight)
